@@ -69,7 +69,7 @@ class Struct:
             setattr(self, fn, v)
         if spec is None:
             ctor = self.TYPE.split('<')[0]
-            spec = '%s { %s }' % (ctor, ', '.join('%s: %s' % (fn, getattr(self, fn).spec) for fn, _ in self.FIELDS))
+            spec = '(%s { %s })' % (ctor, ', '.join('%s: %s' % (fn, getattr(self, fn).spec) for fn, _ in self.FIELDS))
         self.spec = spec
 
     @classmethod
